@@ -96,7 +96,8 @@ class AbstractJunction(AbstractCondition, ABC):
                 elif isinstance(
                         condition,
                         NamedQuery
-                ) and none_table not in condition.tables:
+                ) and none_table not in condition.tables and not condition._inverted:
+                    # Only positive queries are merged (merging would drop the NOT).
                     named_query_dict[
                         condition.name
                     ].add(
